@@ -8,11 +8,14 @@ import lib
 from props import shortp8
 
 ID = 'C04'
-GEN_FILES = ['K_compress', 'K_p8png', 'K_p8png_codec']
+GEN_FILES = ['K_compress', 'K_p8png', 'K_p8png_codec',
+             # source pins of the hand-modelled modules (gen/kernels_pins.py)
+             'T_pins_p8png', 'T_pins_compress', 'T_pins_file', 'T_pins_util', 'T_pins_fmtbase', 'T_pins_game']
 COQ_PROPERTY = 'theories/Properties/C04.vo'
 COQ_EXTRA = ['theories/Generated/K_p8png_selftest.vo', 'theories/Generated/K_p8png_codec_selftest.vo',
              'theories/Generated/K_compress_selftest.vo',
-             'theories/Properties/C04Chain.vo']     # C04_p8_png_p8: composition with the .p8 stack (C03's cone)
+             'theories/Properties/C04Chain.vo',
+             'theories/Proofs/P8PngPins.vo', 'theories/Proofs/CompressPins.vo', 'theories/Proofs/FilePins.vo', 'theories/Proofs/UtilPins.vo', 'theories/Proofs/FmtBasePins.vo', 'theories/Proofs/GamePins.vo']     # C04_p8_png_p8: composition with the .p8 stack (C03's cone)
 MODEL = ('ExC04', 'c04_main.ml')
 MONITOR = ('MonC04', 'c04_mon_main.ml')
 CASE_TIMEOUT = 900
